@@ -431,8 +431,8 @@ func explore(sc Scenario, bound int, acc *ev.Acc, deadline time.Time) {
 	if fail != nil {
 		kind := strings.SplitN(fail.Err, ":", 2)[0]
 		acc.Violate(ev.Violation{
-			Key: "C10/" + sc.ID() + "/" + kind,
-			Msg: fmt.Sprintf("%s with %d preemptions: %s", sc.ID(), fail.Level, fail.Err),
+			Key:    "C10/" + sc.ID() + "/" + kind,
+			Msg:    fmt.Sprintf("%s with %d preemptions: %s", sc.ID(), fail.Level, fail.Err),
 			Replay: map[string]any{"scenario": sc, "choices": fail.Choices, "trace": fail.Trace},
 		})
 	}
@@ -518,7 +518,7 @@ func main() {
 	racePass(acc, *tier)
 	os.Exit(acc.Done(ev.Finish{
 		Prop: "C10", Tier: *tier, Level: "model_checking", Start: start,
-		Rule: fmt.Sprintf("all scenarios of 2 threads x <=2 ops (thorough: +3 threads) over {W0,R0,RT0,W1,R1,Size} in which a written address is touched by another thread, on MemDisk (preemption point before every statement and lock operation, copies split in halves) and FileDisk (one atomic step per simulated system call); every schedule with <= %d preemptions; oracle: porcupine linearizability vs register array + no torn block (mem), regular-register order per address (file)", bound),
+		Rule:        fmt.Sprintf("all scenarios of 2 threads x <=2 ops (thorough: +3 threads) over {W0,R0,RT0,W1,R1,Size} in which a written address is touched by another thread, on MemDisk (preemption point before every statement and lock operation, copies split in halves) and FileDisk (one atomic step per simulated system call); every schedule with <= %d preemptions; oracle: porcupine linearizability vs register array + no torn block (mem), regular-register order per address (file)", bound),
 		Assumptions: []string{"preemption only at statement boundaries, lock operations and copy midpoints of machine/disk/mem.go, and at system calls of file.go", "pread/pwrite of one block are atomic in simunix", "data races outside those points are the job of the free-running -race pass (race_pass_* keys), which is not exhaustive over schedules"},
 		Extra: map[string]any{
 			"states":                        acc.Counters["executions"],
